@@ -1,7 +1,8 @@
 """C18 - DIP numerical, logical and template expressions compute unit-aware results under the documented priorities.
 
-E2: three bounded expression grammars are unfolded completely over a fixed environment (typed nodes, one custom
-unit `[len] = 2 m` and a node in it).  Every derivation is rendered to the expression string, executed on the real
+E2: three bounded expression grammars are unfolded completely over a fixed environment (typed nodes; nodes that were
+modified after their definition - same unit, another unit, twice; integer nodes in different units; two custom units,
+`[len] = 2 m` and `[hand] = 10 cm` (defined in a non-base unit), with nodes in them).  Every derivation is rendered to the expression string, executed on the real
 solvers (stand-alone: NumericalSolver / LogicalSolver / TemplateSolver; in-file: as the value of a node in a DIP text
 that is parsed with DIP.parse) and compared with a reference evaluator over the *generator's AST*
 (mc/refmodels/dip_expr_ref.py: exact Fraction arithmetic with a propagated error scale, documented priorities,
@@ -45,7 +46,10 @@ ASSUMPTIONS = [
     "the reference evaluators (exact Fractions, first-order error scale, tolerance 1e-12*scale; Python format()) and "
     "the renderers in mc/refmodels/dip_expr_ref.py are trusted; they interpret the generator's AST and share no code "
     "with the library",
-    "the factors of the unit alphabet (m, cm, s, [len]=2 m) are written out by hand in the reference model",
+    "the factors of the unit alphabet (m, cm, mm, s, rad, mrad, [len]=2 m, [hand]=10 cm; deg = the published table "
+    "value 1.7453292e-2) are written out by hand in the reference model",
+    "the value of a node after modifications (last assignment wins, in the unit of the definition - property C14) is "
+    "written out by hand in the node table",
     "transcendental functions are compared with math.* of the exact argument (error scale includes |f'|*e_x)",
     "inputs listed under 'Not demanded' in the module docstring are outside the coverage statement",
 ]
@@ -62,6 +66,20 @@ _NODES = [
     ("b3", "int", 4, None, "b3 int = 4"),
     ("k", "int", 200, "cm", "k int = 200 cm"),
     ("x", "float", 0.75, None, "x float = 0.75"),
+    # nodes modified after their definition (same unit, another unit, twice): a reference delivers the CURRENT value
+    ("wm", "float", 0.5, "m", "wm float = 1 m\nwm = 50 cm"),
+    ("ws", "float", 3.0, "m", "ws float = 4 m\nws = 3 m"),
+    ("wt", "float", 0.25, "m", "wt float = 1 m\nwt = 80 cm\nwt = 25 cm"),
+    ("cnt", "int", 9, None, "cnt int = 7\ncnt = 9"),
+    ("fm", "bool", False, None, "fm bool = true\nfm = false"),
+    ("sm", "str", "new", None, "sm str = 'old'\nsm = 'new'"),
+    # integer nodes in different units (conversions with fractional results), small and large magnitudes
+    ("k2", "int", 2, "m", "k2 int = 2 m"),
+    ("k3", "int", 250, "cm", "k3 int = 250 cm"),
+    ("k4", "int", 3, "m", "k4 int = 3 m"),
+    ("ms", "int", 1500, "mm", "ms int = 1500 mm"),
+    ("tiny", "float", 0.001, "m", "tiny float = 0.001 m"),
+    ("big", "float", 5000000.0, "m", "big float = 5000000 m"),
     ("ang", "float", 30.0, "deg", "ang float = 30 deg"),
     ("slope", "int", 45, "deg", "slope int = 45 deg"),
     ("f", "bool", True, None, "f bool = true"),
@@ -77,8 +95,11 @@ _NODES = [
     ("arr", "farr", [[1.5, 2.5, 3.5], [4.0, 5.0, 6.0]], "m", "arr float[2,3] = [[1.5,2.5,3.5],[4,5,6]] m"),
     ("iarr", "iarr", [7, 8, 9], None, "iarr int[3] = [7,8,9]"),
 ]
-_CUSTOM_NODES = [("d", "float", 1.0, "[len]", "d float = 1 [len]")]
-UNIT_LINE = "$unit len = 2 m"
+_CUSTOM_NODES = [("d", "float", 1.0, "[len]", "d float = 1 [len]"),
+                 ("dm", "float", 1.5, "[len]", "dm float = 1 [len]\ndm = 3 m"),
+                 ("hh", "float", 3.0, "[hand]", "hh float = 3 [hand]")]
+UNIT_LINES = ["$unit len = 2 m", "$unit hand = 10 cm"]      # a base unit and a non-base unit definition
+UNIT_LINE = UNIT_LINES[0]
 
 ENVS = ("plain", "custom", "custom-api")       # custom: `$unit` line in the text; custom-api: DIP.add_unit()
 
@@ -96,7 +117,8 @@ def _parse_text(envname, lines):
     with DIP() as dip:
         if envname == "custom-api":
             dip.add_unit("len", 2, "m")
-        text = "\n".join(([UNIT_LINE] if envname == "custom" else []) + list(lines)) + "\n"
+            dip.add_unit("hand", 10, "cm")
+        text = "\n".join((UNIT_LINES if envname == "custom" else []) + list(lines)) + "\n"
         dip.add_string(text)
         return dip.parse()
 
@@ -207,6 +229,12 @@ ARGS8 = [  # dimensionless arguments: 3, 3, 0.5, 4, 0.75, 2.5, 1.25, 4
     flat([par(flat([Ra, L50], ["+"])), L2m], ["/"]), flat([Ra, Rb, Rc], ["*", "/"]),
 ]
 ARGS3 = [Rb, flat([Ra, L50], ["/"]), flat([Rc, Ra], ["/"])]
+Rwm, Rws, Rwt, Rcnt, Rdm, Rhh = ref("wm"), ref("ws"), ref("wt"), ref("cnt"), ref("dm"), ref("hh")
+L1hand = lit("1", "[hand]")
+AM = [Rwm, Rwt, Rws, Rcnt, L50, L3]               # modified nodes (+ two literals)
+AM4 = [Rwm, Rwt, Rcnt, L50]
+ACM = [Rdm, Rhh, L1hand, Rwm, L1len, L3]          # custom env: modified node in [len], non-base custom unit
+ACM4 = [Rdm, Rhh, L1hand, L3]
 TRIG = ["sin", "cos"]
 Rang, Rslope, Rx = ref("ang"), ref("slope"), ref("x")
 ANG = [  # angle-valued (or angle-ratio) arguments of sin / cos: every operand carries its unit
@@ -381,6 +409,16 @@ def num_streams(tier, seed):
         S.append(("numc/flat3", "custom", lambda: g_flat(3, AC4), False))
         S.append(("numc/group3", "custom", lambda: g_group(3, [L1len, Ra, L3]), False))
     S.append(("numc-api/flat1", "custom-api", lambda: g_flat(1, AC6), True))
+    # references to nodes that were modified after their definition; custom unit defined in a non-base unit
+    S.append(("num/modified0", "plain", lambda: g_flat(0, [Rwm, Rwt, Rws, Rcnt]), True))
+    S.append(("num/modified1", "plain", lambda: g_flat(1, AM, [L50, L3]), True))
+    S.append(("num/modified2", "plain", lambda: g_flat(2, AM, [L50, L3]), True))
+    S.append(("num/modified-fn", "plain", lambda: g_fn([flat([Rwm, L50], ["/"]), flat([Rcnt, L3], ["/"])], [Rwm, L3],
+                                                       [flat([Rwt, L50], ["/"])], [Rwm]), False))
+    S.append(("numc/modified0", "custom", lambda: g_flat(0, [Rdm, Rhh, L1hand, Rwm]), True))
+    S.append(("numc/modified1", "custom", lambda: g_flat(1, ACM, [L1len, L3]), True))
+    S.append(("numc/modified2", "custom", lambda: g_flat(2, ACM4 if q else ACM, [L3] if q else [L1len, L3]), True))
+    S.append(("numc-api/modified1", "custom-api", lambda: g_flat(1, ACM4, [L3]), True))
     return S
 
 
@@ -400,6 +438,13 @@ def infile_num_streams(tier, seed):
     S.append(("inum/custom-fn", "custom", lambda: g_fn([flat([Rd, L2m], ["/"])], [Rd, L3], [flat([Rd, L2m], ["/"])],
                                                        [Rd])))
     S.append(("inum/api-flat1", "custom-api", lambda: g_flat(1, AC4)))
+    S.append(("inum/plain-modified0", "plain", lambda: g_flat(0, [Rwm, Rwt, Rws, Rcnt])))
+    S.append(("inum/plain-modified1", "plain", lambda: g_flat(1, AM, [L50, L3])))
+    S.append(("inum/plain-modified2", "plain", lambda: g_flat(2, AM4 if q else AM, [L50] if q else [L50, L3])))
+    S.append(("inum/custom-modified0", "custom", lambda: g_flat(0, [Rdm, Rhh, L1hand])))
+    S.append(("inum/custom-modified1", "custom", lambda: g_flat(1, ACM, [L1len, L3])))
+    S.append(("inum/custom-modified2", "custom", lambda: g_flat(2, ACM4, [L3])))
+    S.append(("inum/api-modified1", "custom-api", lambda: g_flat(1, ACM4, [L3])))
     S.append(("inum/plain-trig", "plain", lambda: g_fn(ANG, A3, ANG4[:2], [Ra], TRIG)))
     S.append(("inum/custom-trig", "custom", lambda: g_fn(ANG4, [Rd, L1len], ANG4[:1], [Rd], TRIG)))
     if not q:
@@ -437,7 +482,21 @@ def _cmp_pairs(custom):
     k_lits = [num("200", "cm"), num("2", "m"), num("2.005", "m"), num("2.5", "m"), num("3", "m"), num("150", "cm"),
               num("200.4", "cm"), num("2.00000002", "m")]
     x_lits = [num("0.75"), num("0.7500000007"), num("0.7500075"), num("0.75075"), num("1"), num("0.5"), num("7.5e-1")]
-    for n, lits in (("a", a_lits), ("c", c_lits), ("b", b_lits), ("k", k_lits), ("x", x_lits)):
+    # nodes modified after definition: literals at the current value, at the OLD (definition) value, offsets
+    wm_lits = [num("0.5", "m"), num("50", "cm"), num("1", "m"), num("100", "cm"), num("0.500005", "m"),
+               num("50.00000005", "cm"), num("0.25", "m")]
+    wt_lits = [num("0.25", "m"), num("25", "cm"), num("80", "cm"), num("1", "m"), num("0.8", "m")]
+    ws_lits = [num("3", "m"), num("4", "m"), num("300", "cm"), num("400", "cm")]
+    cnt_lits = [num("9"), num("7"), num("8"), num("9.0"), num("7.0")]
+    # small and large magnitudes: the tolerance is relative (abs. differences 2e-8 m / 0.1 m must not decide)
+    tiny_lits = [num("1", "mm"), num("0.001", "m"), num("1.00002", "mm"), num("0.99998", "mm"),
+                 num("1.0000000002", "mm"), num("0.00100002", "m"), num("2", "mm"), num("1.0005", "mm")]
+    big_lits = [num("5000000", "m"), num("5000000.1", "m"), num("4999999.9", "m"), num("5000100", "m"),
+                num("4999900", "m"), num("5000001", "m"), num("5005000", "m"), num("500000000", "cm")]
+    k3_lits = [num("2.5", "m"), num("250", "cm"), num("2", "m"), num("3", "m")]
+    for n, lits in (("a", a_lits), ("c", c_lits), ("b", b_lits), ("k", k_lits), ("x", x_lits), ("wm", wm_lits),
+                    ("wt", wt_lits), ("ws", ws_lits), ("cnt", cnt_lits), ("tiny", tiny_lits), ("big", big_lits),
+                    ("k3", k3_lits)):
         for l in lits:
             P.append((node(n), l))
     if custom:
@@ -445,10 +504,24 @@ def _cmp_pairs(custom):
             P.append((node("a"), l))
         for l in (num("2", "m"), num("1", "[len]"), num("200.002", "cm"), num("3", "m"), num("1.000000001", "[len]")):
             P.append((node("d"), l))
+        for l in (num("3", "m"), num("1.5", "[len]"), num("2", "m"), num("1", "[len]"), num("300.003", "cm")):
+            P.append((node("dm"), l))
+        for l in (num("30", "cm"), num("3", "[hand]"), num("0.3", "m"), num("3", "m"), num("0.15", "[len]"),
+                  num("30.0003", "cm")):
+            P.append((node("hh"), l))
+        for l in (num("20", "[hand]"), num("2", "[hand]"), num("20.0002", "[hand]")):
+            P.append((node("a"), l))
     NN = [("a", "c"), ("a", "a2"), ("c", "a2"), ("a2", "a"), ("b", "b2"), ("b", "b3"), ("b3", "b"), ("a", "a"),
-          ("x", "x")]
+          ("x", "x"),
+          # modified nodes
+          ("wm", "wt"), ("wt", "wm"), ("wm", "a"), ("a", "wm"), ("ws", "a2"), ("cnt", "b"), ("b", "cnt"), ("cnt", "b3"),
+          ("wm", "wm"), ("cnt", "cnt"),
+          # two integer nodes in different units: the conversion of either side has a fractional result
+          ("k3", "k2"), ("k2", "k3"), ("k", "k2"), ("k2", "k"), ("k3", "k4"), ("k4", "k3"), ("ms", "k2"), ("k2", "ms"),
+          ("ms", "k3"), ("k3", "ms"), ("ms", "k"), ("k", "ms"), ("k", "k3"), ("k3", "k"), ("k2", "k4"), ("ms", "k4")]
     if custom:
-        NN += [("a", "d"), ("d", "a"), ("d", "c")]
+        NN += [("a", "d"), ("d", "a"), ("d", "c"), ("dm", "a"), ("a", "dm"), ("dm", "d"), ("hh", "c"), ("c", "hh"),
+               ("hh", "d"), ("dm", "hh")]
     return P, NN
 
 
@@ -464,7 +537,9 @@ def g_cmp(custom, ops=CMP):
     SB = [(node("s"), node("s2")), (node("s"), node("s3")), (node("s3"), node("s")), (node("f"), ["true"]),
           (node("f"), ["false"]), (node("g"), ["false"]), (["true"], node("f")), (node("f"), node("g")),
           (node("g"), node("g")), (["def", "a"], ["true"]), (["def", "zz"], ["false"]), (["def", "zz"], ["true"]),
-          (["def", "a"], node("f"))]
+          (["def", "a"], node("f")),
+          (node("sm"), node("s")), (node("sm"), node("sm")), (node("s3"), node("sm")), (node("fm"), ["false"]),
+          (node("fm"), ["true"]), (node("fm"), node("f")), (node("g"), node("fm")), (["def", "wm"], ["true"])]
     for op in ("==", "!="):
         if op in ops:
             for l, r in SB:
@@ -474,7 +549,7 @@ def g_cmp(custom, ops=CMP):
 def g_single(custom):
     """truth atoms, their negations, comparisons plain / negated / negated in parentheses"""
     for x in (["true"], ["false"], ["bref", "f"], ["bref", "g"], ["def", "a"], ["def", "zz"], ["def", "s"],
-              ["def", "arr"]):
+              ["def", "arr"], ["bref", "fm"], ["def", "wm"], ["def", "fm"]):
         yield x
         yield ["not", x]
         yield par(x)
@@ -497,6 +572,11 @@ B4 = [["bref", "f"], ["false"], ["cmp", "==", node("a"), num("3", "m")], ["cmp",
 B3 = [["bref", "f"], ["cmp", "==", node("a"), num("3", "m")], ["cmp", "<=", node("c"), num("1.5", "m")]]
 B2 = [["true"], ["false"]]
 B10 = B6 + [["false"], ["bref", "f"], ["cmp", "==", node("s"), node("s3")], ["cmp", ">", node("b"), num("2")]]
+# truth atoms that read modified nodes / integer nodes in different units (disjoint from B14)
+BM = [["bref", "fm"], ["not", ["bref", "fm"]], ["cmp", "==", node("wm"), num("50", "cm")],
+      ["cmp", "==", node("wm"), num("1", "m")], ["cmp", ">", node("k3"), node("k2")],
+      ["cmp", "==", node("k3"), node("k2")], ["cmp", "<=", node("ms"), node("k2")],
+      ["cmp", "!=", node("sm"), node("s")], ["cmp", "<", node("cnt"), num("8")]]
 LOPS = ["&&", "||"]
 
 
@@ -546,6 +626,9 @@ def log_streams(tier, seed):
     S.append(("log/group2", "custom", lambda: g_conn_group(2, B6 if q else B10)))
     S.append(("log/group3", "custom", lambda: g_conn_group(3, B3 if q else B6)))
     S.append(("log/nested", "custom", lambda: g_conn_nested(B3 if q else B6)))
+    S.append(("log/modified1", "custom", lambda: g_conn(1, BM)))
+    S.append(("log/modified2", "custom", lambda: g_conn(2, BM[:5] if q else BM)))
+    S.append(("log/modified-group", "custom", lambda: g_conn_group(2, BM[:4])))
     return S
 
 
@@ -558,12 +641,14 @@ def infile_log_streams(tier, seed):
     S.append(("ilog/conn2", "custom", lambda: g_conn(2, B6 if q else B14)))
     S.append(("ilog/group2", "custom", lambda: g_conn_group(2, B4 if q else B6)))
     S.append(("ilog/api-single", "custom-api", lambda: g_cmp(True, ops=["=="])))
+    S.append(("ilog/modified1", "custom", lambda: g_conn(1, BM)))
+    S.append(("ilog/modified2", "plain", lambda: g_conn(2, BM[:5])))
     return S
 
 
 # --------------------------------------------------------------------------------------------------- templates
 FMTS = [None, "d", "05d", "5d", ".2f", "8.3f", "f", ".3e", "e", "s", "10s", ".3s", "b", "08b"]
-SCALARS = ["id", "b", "a", "w", "h", "neg", "s", "name", "f", "g", "k", "x"]
+SCALARS = ["id", "b", "a", "w", "h", "neg", "s", "name", "f", "g", "k", "x", "wm", "wt", "ws", "cnt", "fm", "sm"]
 STR_SLICES = [[[1, 3]], [[5, None]], [[None, 2]], [[0, 0]], [[2, 2]], [[None, None]], [[3, 9]]]
 ARR_ELEMS = [("arr", [[1, 1], [2, 2]]), ("arr", [[0, 0], [0, 0]]), ("arr", [[0, 0], [1, 1]]), ("iarr", [[1, 1]]),
              ("iarr", [[2, 2]]), ("iarr", [[0, 0]])]
@@ -580,7 +665,7 @@ def _valid_refs(env):
     for n in SCALARS:
         for f in FMTS:
             out.append(tref(n, None, f))
-    for n in ("s", "name"):
+    for n in ("s", "name", "sm"):
         for sl in STR_SLICES:
             for f in (None, "s", "10s", ".3s"):
                 out.append(tref(n, sl, f))
@@ -599,7 +684,12 @@ def _valid_refs(env):
 
 def _small_refs():
     return [tref("id", None, "05d"), tref("s"), tref("a", None, ".2f"), tref("name", [[5, None]]), tref("f"),
-            tref("arr", [[1, 1], [2, 2]], ".3e"), tref("w"), tref("iarr", [[1, 1]])]
+            tref("arr", [[1, 1], [2, 2]], ".3e"), tref("w"), tref("iarr", [[1, 1]]), tref("wm"),
+            tref("sm", [[1, 3]]), tref("cnt", None, "05d")]
+
+
+def _custom_refs():
+    return [tref("d"), tref("dm"), tref("dm", None, ".2f"), tref("hh"), tref("hh", None, ".3e")]
 
 
 def _tpl_ok(pieces):
@@ -690,6 +780,7 @@ def _num_units(refv, envname, extra):
         units.append("cm")
     if dims == (1, 0, 0) and envname != "plain":
         units.append("[len]")
+        units.append("[hand]")
     if extra and dims == (2, 0, 0):
         units.append("cm2")
     return units
@@ -706,12 +797,24 @@ def _solve_num(envname, text, unit):
     return r
 
 
+_MODIFIED = {"wm", "ws", "wt", "cnt", "fm", "sm", "dm"}
+
+
+def _ref_tags(ast, tags):
+    names = _names_in(ast, set())
+    if "hh" in names:
+        tags.add("custom-unit-defined-in-non-base-unit")
+    if names & _MODIFIED:
+        tags.add("node-modified-after-definition")
+
+
 def _num_tags(ast, envname, notes=()):
     tags = set(R.num_features(ast)) | set(notes)
     tags.add("env:" + envname)
     if envname != "plain":
         tags.add("custom-units-in-env")
     tags.add("operators=%d" % R.num_nops(ast))
+    _ref_tags(ast, tags)
     return sorted(tags)
 
 
@@ -752,8 +855,10 @@ def run_num(envname, ast, extra, sh, sub="numerical"):
 
 def _judge_num(sub, case, refv, o, notes, sh, infile_unit=None):
     tags = _num_tags(case["ast"], case["env"], notes)
-    if case.get("unit") == "[len]":
+    if case.get("unit") in ("[len]", "[hand]"):
         tags.append("requested-unit:custom")
+    if case.get("unit") == "[hand]":
+        tags.append("custom-unit-defined-in-non-base-unit")
     if refv[0] == "raise":
         if o[0] == "err":
             sh.count(sub + ":refused-as-demanded")
@@ -977,6 +1082,7 @@ def _truth(r):
 
 def _log_tags(ast, envname):
     tags = set(R.log_features(ast, _REF[envname]))
+    _ref_tags(ast, tags)
     tags.add("env:" + envname)
     return sorted(tags)
 
@@ -1066,6 +1172,8 @@ def _tpl_tags(pieces, envname):
                 tags.add("slice")
             if p[3]:
                 tags.add("format:" + p[3])
+            if p[1] in _MODIFIED:
+                tags.add("node-modified-after-definition")
             if prev == "ref":
                 tags.add("adjacent-references")
         else:
@@ -1156,9 +1264,9 @@ def _streams(tier, seed):
     for name, env, g in infile_log_streams(tier, seed):
         out[name] = ("ilog", env, g, None)
     out["tpl/all"] = ("tpl", "plain", lambda: g_tpl(tier), None)
-    out["tpl/custom-env"] = ("tpl", "custom", lambda: ([r] for r in _valid_refs(_REF["plain"])), None)
+    out["tpl/custom-env"] = ("tpl", "custom", lambda: ([r] for r in _valid_refs(_REF["plain"]) + _custom_refs()), None)
     out["itpl/all"] = ("itpl", "plain", lambda: g_tpl_infile(tier), None)
-    out["itpl/custom"] = ("itpl", "custom", lambda: ([r] for r in _small_refs()), None)
+    out["itpl/custom"] = ("itpl", "custom", lambda: ([r] for r in _small_refs() + _custom_refs()), None)
     return out
 
 
@@ -1299,14 +1407,18 @@ def finish(total, tier, seed):
                       "sin cos pow (nesting <=2); operands 3, 2 m, 50 cm, -2 m, -3, {?a} {?b} {?c} {?t}, 1 [len], "
                       "0.5 [len], {?d}; sin/cos of 16 angle arguments (deg, rad, mrad literals, float and int nodes "
                       "in deg, products / sums / differences / ratios of angles) alone, as operands of larger "
-                      "expressions and inside exp log10 pow; requested unit SI / cm / cm2 / [len] / none",
+                      "expressions and inside exp log10 pow; references to nodes modified after definition ({?wm} "
+                      "{?wt} {?ws} {?cnt} {?dm}) and to the non-base custom unit (1 [hand], {?hh}) with <=2 "
+                      "operators; requested unit SI / cm / cm2 / [len] / [hand] / none",
             logical="6 comparison operators x (node, literal) pairs incl. relative offsets 1e-9, 1e-5, 1e-3 in the "
                     "same and in convertible units, both operand orders, node-node, int node vs decimal literal, "
-                    "string/bool equalities; ~, !{ref}, ~!{ref}; && || with <=4 connectives, groups, nesting <=2",
-            template="{{ref}}, {{ref}:fmt} for 13 formats x 12 scalar nodes, string slices, array elements, plain "
+                    "string/bool equalities; modified float/int/bool/str nodes; two int nodes in different units "
+                    "(16 ordered pairs); magnitudes 1e-3 and 5e6; ~, !{ref}, ~!{ref}; && || with <=4 connectives, "
+                    "groups, nesting <=2",
+            template="{{ref}}, {{ref}:fmt} for 13 formats x 18 scalar nodes (6 of them modified after definition), string slices, array elements, plain "
                      "braces, <=3 pieces, adjacent references",
             in_file="numerical / logical / template expressions as node values of float / bool / str nodes in DIP "
-                    "texts without custom unit, with `$unit len = 2 m`, and with DIP.add_unit",
+                    "texts without custom unit, with `$unit len = 2 m` + `$unit hand = 10 cm`, and with DIP.add_unit",
             tolerance="numerical |got-exp| <= 1e-12 * propagated error scale",
         ),
         tier_alphabets="quick: 3-operator flat space over 4 operands + seed window of the 9-operand space, "
